@@ -62,6 +62,10 @@ def teardown(ctx):
 FENCES = [("---", "---"), ("---", "-----"), ("----", "----"), ("---", "---  "), ("---  ", "---"), ("----", "------"), ("---", "---")]
 
 
+NONDEFAULT_BASES = [{"footnote_sort": False, "footnote_transition": True}, {"footnote_sort": False}, {"commonmark_only": True}, {"enable_extensions": ["deflist", "html_image"], "heading_anchors": 3, "all_links_external": True},
+                    {"update_mathjax": False, "mathjax_classes": "a|b"}, {"title_to_header": True, "words_per_minute": 100}, {"url_schemes": ["http"], "ref_domains": ["py"]}]
+
+
 def fm_wrap(case, dumped):
     o, c = FENCES[(case.get("seed", 0) + case.get("index", 0) + len(case.get("field", ""))) % len(FENCES)]
     return o + "\n" + dumped + c + "\n"
@@ -245,6 +249,28 @@ def eval_value(ctx, case):
     c2 = MdParserConfig().copy(**{name: val})
     if not same(getattr(c2, name), exp):
         ctx.violation(f"entry:copy:{name}", f"copy({name}={val!r}) stores {getattr(c2, name)!r}, constructor form {exp!r}", case, detail)
+    # setting ONE option must leave every other option as it was - from non-default starting points too (constructor, copy, file-level merge)
+    for base_kw in NONDEFAULT_BASES:
+        if name in base_kw:
+            continue
+        try:
+            b0 = MdParserConfig(**base_kw)
+            variants = {"constructor": MdParserConfig(**base_kw, **{name: val}), "copy": b0.copy(**{name: val})}
+            if not fld.metadata.get("global_only") and is_jsonish(val):
+                variants["merge_file_level"] = merge_file_level(b0, {"myst": {name: val}}, lambda t, m: None)
+        except Exception:  # noqa: BLE001
+            continue
+        lost = {k: getattr(b0, k) for k, v in base_kw.items() if not same(getattr(b0, k), canon_value(k, v))}
+        if lost:
+            ctx.violation(f"coupling:constructor-drops-{sorted(lost)[0]}", f"MdParserConfig(**{base_kw}) stores {lost}: a value that is valid on its own was changed because of another option", case, detail)
+            break
+        ref = b0.as_dict()
+        for how, cfgx in variants.items():
+            other = {k: v for k, v in cfgx.as_dict().items() if k != name and not same(v, ref[k])}
+            ctx.count("other_fields_checked")
+            if other:
+                ctx.violation(f"coupling:{how}:{name}-changes-{sorted(other)[0]}", f"setting {name}={val!r} through {how} on a configuration with {base_kw} also changed {other} (was {dict((k, ref[k]) for k in other)})", case, detail)
+                break
     if warns:
         ctx.violation("front-matter:valid-value-warned", f"valid {name}={val!r} produced topmatter warnings {warns}", case, detail)
     if not same(getattr(merged, name), exp_m):
@@ -269,8 +295,15 @@ def eval_value(ctx, case):
             ctx.violation("front-matter:valid-value-warned", f"valid {name}={val!r} produced a topmatter warning: {w.strip()[:200]}", case, detail)
     # --- docutils option string
     if "docutils" not in fld.metadata.get("omit", []):
-        s = docutils_string(name, val)
-        if s is not None:
+        s0 = docutils_string(name, val)
+        spellings = [s0]
+        if name in LISTSTR + ["enable_extensions", "fence_as_directive"] and isinstance(val, (list, tuple, set, frozenset)) and (s0 is not None or not val):
+            # comma lists: blanks around items, a trailing / leading / doubled comma and the empty list are the same value
+            vs = list(val)
+            j = ",".join(vs)
+            spellings = [j, ", ".join(vs), " , ".join(vs), j + ",", "," + j, ",,".join(vs), " " + j + " "] if vs else ["", ",", " "]
+        for s in spellings:
+          if s is not None:
             flag = "--myst-" + name.replace("_", "-")
             try:
                 settings = frontend.OptionParser(components=(Parser,)).parse_args([f"{flag}={s}"])
@@ -283,7 +316,7 @@ def eval_value(ctx, case):
                     exp_d = list(val)
                 if not same(getattr(dcfg, name), exp_d) and not (name in LISTSTR and list(getattr(dcfg, name)) == list(exp_d)):
                     ctx.violation(f"entry:docutils-string:differs:{name}", f"{flag}={s!r} gives {getattr(dcfg, name)!r}, the constructor gives {exp!r}", case, detail)
-                ctx.count("docutils_strings_compared")
+            ctx.count("docutils_strings_compared")
     # --- Sphinx conf value
     if "sphinx" not in fld.metadata.get("omit", []):
         app = types.SimpleNamespace(config={"myst_" + f.name: getattr(MdParserConfig(), f.name) for f in MdParserConfig.get_fields()}, env=types.SimpleNamespace())
